@@ -367,6 +367,8 @@ var("C18", "bucket-small-limit-lt16", "metrics/histograms.go", "\tif n <= 15 {\n
 mut("C18", "bucket-offset-rounded-up", "metrics/histograms.go", "offset := int((n - prevPowerOf4) / delta)", "offset := int((n - prevPowerOf4 + delta - 1) / delta)", "R18.15")
 mut("C18", "bucket-offset-shifted", "metrics/histograms.go", "offset := int((n - prevPowerOf4) / delta)", "offset := int((n - prevPowerOf4 - 1) / delta)", "R18.15")
 var("C18", "bucket-last-clamp-early", "metrics/histograms.go", "\tif pos >= numAtlasBuckets-1 {\n\t\treturn numAtlasBuckets - 1\n\t}", "\tif pos >= numAtlasBuckets-2 {\n\t\treturn numAtlasBuckets - 1\n\t}", "same function of the value")
+var("C07", "key-peek-then-copy", "protocol/binprot/parser.go", "\tbuf := make([]byte, l)\n\tn, err := io.ReadAtLeast(r, buf, int(l))", "\tif br, ok := r.(*bufio.Reader); ok && br.Buffered() >= int(l) {\n\t\tp, _ := br.Peek(int(l))\n\t\tkey := append([]byte(nil), p...)\n\t\tbr.Discard(int(l))\n\t\treturn key, nil\n\t}\n\tbuf := make([]byte, l)\n\tn, err := io.ReadAtLeast(r, buf, int(l))", "the peeked bytes are copied before they are handed out")
+mut("C07", "key-peek-view", "protocol/binprot/parser.go", "\tbuf := make([]byte, l)\n\tn, err := io.ReadAtLeast(r, buf, int(l))", "\tif br, ok := r.(*bufio.Reader); ok && br.Buffered() >= int(l) {\n\t\tp, _ := br.Peek(int(l))\n\t\tbr.Discard(int(l))\n\t\treturn p, nil\n\t}\n\tbuf := make([]byte, l)\n\tn, err := io.ReadAtLeast(r, buf, int(l))", "R7.14")
 
 for prop, ms in sorted(M.items()):
     json.dump(ms, open(os.path.join(ROOT, "rendlint", "mutants", prop + ".json"), "w"), indent=1)
